@@ -52,6 +52,25 @@ pub struct Deserializer<'de> {
     term: &'de OwnedTerm,
 }
 
+/// The value of an integer term. Integers outside the 32-bit range come back from the
+/// wire as big integers, so both representations have to be read.
+fn integer_value(term: &OwnedTerm) -> Option<i128> {
+    match term {
+        OwnedTerm::Integer(i) => Some(i128::from(*i)),
+        OwnedTerm::BigInt(big) if big.digits.len() <= 8 => {
+            let mut bytes = [0u8; 8];
+            bytes[..big.digits.len()].copy_from_slice(&big.digits);
+            let magnitude = i128::from(u64::from_le_bytes(bytes));
+            Some(if big.sign.is_negative() {
+                -magnitude
+            } else {
+                magnitude
+            })
+        }
+        _ => None,
+    }
+}
+
 impl<'de> Deserializer<'de> {
     fn expect_atom(&self, expected: &str) -> Result<&Atom> {
         match self.term {
@@ -121,11 +140,11 @@ impl<'de> SerdeDeserializer<'de> for &mut Deserializer<'de> {
     }
 
     fn deserialize_i8<V: Visitor<'de>>(self, visitor: V) -> Result<V::Value> {
-        match self.term {
-            OwnedTerm::Integer(i) => i8::try_from(*i)
+        match integer_value(self.term) {
+            Some(i) => i8::try_from(i)
                 .map_err(|_| Error::InvalidValue(format!("integer {} out of range for i8", i)))
                 .and_then(|v| visitor.visit_i8(v)),
-            _ => Err(Error::TypeMismatch {
+            None => Err(Error::TypeMismatch {
                 expected: "integer".into(),
                 found: format!("{:?}", self.term),
             }),
@@ -133,11 +152,11 @@ impl<'de> SerdeDeserializer<'de> for &mut Deserializer<'de> {
     }
 
     fn deserialize_i16<V: Visitor<'de>>(self, visitor: V) -> Result<V::Value> {
-        match self.term {
-            OwnedTerm::Integer(i) => i16::try_from(*i)
+        match integer_value(self.term) {
+            Some(i) => i16::try_from(i)
                 .map_err(|_| Error::InvalidValue(format!("integer {} out of range for i16", i)))
                 .and_then(|v| visitor.visit_i16(v)),
-            _ => Err(Error::TypeMismatch {
+            None => Err(Error::TypeMismatch {
                 expected: "integer".into(),
                 found: format!("{:?}", self.term),
             }),
@@ -145,11 +164,11 @@ impl<'de> SerdeDeserializer<'de> for &mut Deserializer<'de> {
     }
 
     fn deserialize_i32<V: Visitor<'de>>(self, visitor: V) -> Result<V::Value> {
-        match self.term {
-            OwnedTerm::Integer(i) => i32::try_from(*i)
+        match integer_value(self.term) {
+            Some(i) => i32::try_from(i)
                 .map_err(|_| Error::InvalidValue(format!("integer {} out of range for i32", i)))
                 .and_then(|v| visitor.visit_i32(v)),
-            _ => Err(Error::TypeMismatch {
+            None => Err(Error::TypeMismatch {
                 expected: "integer".into(),
                 found: format!("{:?}", self.term),
             }),
@@ -157,9 +176,11 @@ impl<'de> SerdeDeserializer<'de> for &mut Deserializer<'de> {
     }
 
     fn deserialize_i64<V: Visitor<'de>>(self, visitor: V) -> Result<V::Value> {
-        match self.term {
-            OwnedTerm::Integer(i) => visitor.visit_i64(*i),
-            _ => Err(Error::TypeMismatch {
+        match integer_value(self.term) {
+            Some(i) => i64::try_from(i)
+                .map_err(|_| Error::InvalidValue(format!("integer {} out of range for i64", i)))
+                .and_then(|v| visitor.visit_i64(v)),
+            None => Err(Error::TypeMismatch {
                 expected: "integer".into(),
                 found: format!("{:?}", self.term),
             }),
@@ -167,11 +188,11 @@ impl<'de> SerdeDeserializer<'de> for &mut Deserializer<'de> {
     }
 
     fn deserialize_u8<V: Visitor<'de>>(self, visitor: V) -> Result<V::Value> {
-        match self.term {
-            OwnedTerm::Integer(i) => u8::try_from(*i)
+        match integer_value(self.term) {
+            Some(i) => u8::try_from(i)
                 .map_err(|_| Error::InvalidValue(format!("integer {} out of range for u8", i)))
                 .and_then(|v| visitor.visit_u8(v)),
-            _ => Err(Error::TypeMismatch {
+            None => Err(Error::TypeMismatch {
                 expected: "integer".into(),
                 found: format!("{:?}", self.term),
             }),
@@ -179,11 +200,11 @@ impl<'de> SerdeDeserializer<'de> for &mut Deserializer<'de> {
     }
 
     fn deserialize_u16<V: Visitor<'de>>(self, visitor: V) -> Result<V::Value> {
-        match self.term {
-            OwnedTerm::Integer(i) => u16::try_from(*i)
+        match integer_value(self.term) {
+            Some(i) => u16::try_from(i)
                 .map_err(|_| Error::InvalidValue(format!("integer {} out of range for u16", i)))
                 .and_then(|v| visitor.visit_u16(v)),
-            _ => Err(Error::TypeMismatch {
+            None => Err(Error::TypeMismatch {
                 expected: "integer".into(),
                 found: format!("{:?}", self.term),
             }),
@@ -191,11 +212,11 @@ impl<'de> SerdeDeserializer<'de> for &mut Deserializer<'de> {
     }
 
     fn deserialize_u32<V: Visitor<'de>>(self, visitor: V) -> Result<V::Value> {
-        match self.term {
-            OwnedTerm::Integer(i) => u32::try_from(*i)
+        match integer_value(self.term) {
+            Some(i) => u32::try_from(i)
                 .map_err(|_| Error::InvalidValue(format!("integer {} out of range for u32", i)))
                 .and_then(|v| visitor.visit_u32(v)),
-            _ => Err(Error::TypeMismatch {
+            None => Err(Error::TypeMismatch {
                 expected: "integer".into(),
                 found: format!("{:?}", self.term),
             }),
@@ -203,17 +224,11 @@ impl<'de> SerdeDeserializer<'de> for &mut Deserializer<'de> {
     }
 
     fn deserialize_u64<V: Visitor<'de>>(self, visitor: V) -> Result<V::Value> {
-        match self.term {
-            OwnedTerm::Integer(i) => u64::try_from(*i)
+        match integer_value(self.term) {
+            Some(i) => u64::try_from(i)
                 .map_err(|_| Error::InvalidValue(format!("integer {} out of range for u64", i)))
                 .and_then(|v| visitor.visit_u64(v)),
-            OwnedTerm::BigInt(big) if big.sign.is_positive() && big.digits.len() <= 8 => {
-                let mut bytes = [0u8; 8];
-                bytes[..big.digits.len()].copy_from_slice(&big.digits);
-                let value = u64::from_le_bytes(bytes);
-                visitor.visit_u64(value)
-            }
-            _ => Err(Error::TypeMismatch {
+            None => Err(Error::TypeMismatch {
                 expected: "integer or unsigned bigint".into(),
                 found: format!("{:?}", self.term),
             }),
